@@ -48,7 +48,7 @@ func newFanFromKV(a kv, dir string) fans.Fan {
 		}
 		cfg.File = &configuration.FileFanConfig{Path: dir + "/pwm1", RpmPath: rp}
 	case "cmd":
-		cfg.Cmd = &configuration.CmdFanConfig{}
+		cfg.Cmd = cmdFanConfig(a, dir)
 	}
 	f, err := fans.NewFan(cfg)
 	if err != nil {
